@@ -258,6 +258,24 @@ def emit(outdir):
     regsrc = ast.unparse(reg)
     body.append("Definition gen_registry_by_class_name : bool := " +
                 ("true" if "_QUANTIZERS_REGISTRY.register(quantizer)" in regsrc or "register(quantizer)" in regsrc else "false") + ".")
+    # keys of the custom-object table (utils._add_supported_quantized_objects)
+    ut = ast.parse(open(os.path.join(REPO, "qkeras", "utils.py")).read())
+    table = None
+    for fn in ut.body:
+      if isinstance(fn, ast.FunctionDef) and fn.name == "_add_supported_quantized_objects":
+        table = []
+        for st in fn.body:
+          if isinstance(st, ast.Expr) and isinstance(st.value, ast.Constant):
+            continue
+          ok = (isinstance(st, ast.Assign) and isinstance(st.targets[0], ast.Subscript) and
+                ast.unparse(st.targets[0].value) == "custom_objects" and isinstance(st.targets[0].slice, ast.Constant) and
+                isinstance(st.value, ast.Name) and st.value.id == st.targets[0].slice.value)
+          if not ok:
+            raise Fail("_add_supported_quantized_objects: unsupported statement " + ast.unparse(st)[:60])
+          table.append(st.targets[0].slice.value)
+    if table is None:
+      raise Fail("utils._add_supported_quantized_objects not found")
+    body.append("Definition gen_custom_object_table : list string := " + coq_list([coq_str(c) for c in table]) + ".")
     cal = callees(os.path.join(REPO, "qkeras", "safe_eval.py"))
     body.append("Definition gen_safe_eval_callees : list string := " + coq_list([coq_str(c) for c in cal]) + ".")
     text = hdr + "\n".join(body) + "\n"
@@ -267,6 +285,7 @@ def emit(outdir):
             "Definition gen_classes : list (string * list (string * string) * list string * string) := [].\n"
             "Definition gen_str_tables : list (string * list (cform * bool * string)) := [].\n"
             "Definition gen_registry_by_class_name : bool := false.\n"
+            "Definition gen_custom_object_table : list string := [].\n"
             "Definition gen_safe_eval_callees : list string := [\"<translation failed>\"].\n")
   path = os.path.join(outdir, "QMeta.v")
   with open(path, "w") as f:
